@@ -379,3 +379,67 @@ def fixture_check(tier):
 
 
 TASK.fixture_check = fixture_check
+
+
+# ---------------------------------------------------------------------------------- edge relations (C08 / C09)
+def edge_space(tier, phase):
+    """smaller pair space for two-execution relations: all one-frame states on the identical time base plus every
+    time-base variant over a 4-frame panel of the other family"""
+    fam = family_of(phase)
+    n = (0, 1, 2, 3) if tier == "thorough" else (0, 1, 2)
+    return LazySpace(s_blocks(phase, fam, 1) + d_blocks(phase, other(fam), n, 4, 4))
+
+
+def _map_state(state, ft=None, fr=None, fe=None):
+    (rt, rf), (et, ef) = state
+    if ft is not None:
+        rt, et = tuple(ft(x) for x in rt), tuple(ft(x) for x in et)
+    if fr is not None:
+        rf = tuple(fr(f) for f in rf)
+    if fe is not None:
+        ef = tuple(fe(f) for f in ef)
+    return ((rt, rf), (et, ef))
+
+
+def _shift_edges(state):
+    return [("+%g" % d, _map_state(state, ft=lambda x, d=d: float(Fr(x) + Fr(d)))) for d in (1 / 16.0, 1.0, 1000.0)]
+
+
+def _perm_edges(state):
+    rev = lambda f: tuple(reversed(f))  # noqa
+    rot = lambda f: tuple(f[1:] + f[:1])  # noqa
+    return [("reverse-frames", _map_state(state, fr=rev, fe=rev)), ("rotate-ref-frames", _map_state(state, fr=rot)),
+            ("rotate-est-frames", _map_state(state, fe=rot))]
+
+
+def _in_range(state):
+    return all(20.0 <= x <= 5000.0 for side in state for f in side[1] for x in f)
+
+
+def _scale_edges(state):
+    out = []
+    for name, k in (("x2", 2.0), ("x0.5", 0.5), ("x2^(7/12)", 2.0 ** (7 / 12.0)), ("x1.5", 1.5)):
+        sc = lambda f, k=k: tuple(x * k for x in f)  # noqa
+        s2 = _map_state(state, fr=sc, fe=sc)
+        if _in_range(s2):
+            out.append((name, s2))
+    return out
+
+
+def _octave_edges(state):
+    out = []
+    for name, k in (("est-x2", 2.0), ("est-x0.5", 0.5), ("est-x4", 4.0)):
+        s2 = _map_state(state, fe=lambda f, k=k: tuple(x * k for x in f))
+        if _in_range(s2):
+            out.append((name, s2))
+    return out
+
+
+CHROMA_KEYS = [k for k in FUNCS[0].keys if k.startswith("Chroma")]
+TASK.edge_space = edge_space
+TASK.edges = {
+    "shift": {"apply": _shift_edges, "funcs": None, "keys": None},
+    "permute": {"apply": _perm_edges, "funcs": None, "keys": None},
+    "pitchscale": {"apply": _scale_edges, "funcs": None, "keys": None},
+    "octave": {"apply": _octave_edges, "funcs": None, "keys": CHROMA_KEYS},
+}
